@@ -442,6 +442,19 @@ def text_shortcuts(prog, rep, entry, parser, rule="R14.4"):
         rep.held(rule, entry.qualname, entry.loc, "no path returns the text without a parser having declined it", detail="no-shortcut", nontrivial=False)
 
 
+# JSON texts holding an integer outside what the fast decoder keeps exact (-2**63 .. 2**64-1)
+LONG_INTEGER_TEXTS = (
+    "18446744073709551616",
+    "-9223372036854775809",
+    "-9999999999999999999",
+    "[18446744073709551616]",
+    " 18446744073709551616",
+    "[1, 18446744073709551617]",
+    '{"a": -9223372036854775809}',
+    "[-1, -18446744073709551616]",
+)
+
+
 def long_integers_exact(prog, rep, rule="R14.4"):
     """The default JSON backend (orjson, when installed) reads an integer outside the 64-bit range as a *float* instead of
     refusing it, so the exact literal parser behind it is never asked.  Where typelib.py.compat may bind `json` to orjson, the
@@ -456,9 +469,41 @@ def long_integers_exact(prog, rep, rule="R14.4"):
         return
     val = ("param", f.params[0])
     exact = False
+    # compiled patterns of the module (constants of the source, compiled here by the standard library)
+    import re as _re
+
+    env0: dict = {}
+    for nm, v in f.module.assigns.items():
+        if isinstance(v, _ast.Call) and prog.resolve_expr_name(f.module, v.func) == "re.compile" and len(v.args) == 1 and not v.keywords and isinstance(v.args[0], _ast.Constant) and isinstance(v.args[0].value, str):
+            try:
+                env0[("ref", f"{f.module.name}.{nm}")] = _re.compile(v.args[0].value)
+            except _re.error:
+                pass
+    exact_paths = []
     for p, r in P.returns(P.paths_of(prog, f)):
         if r[0] == "call" and T.refname(r[1]) == "json.loads" and r[2][:1] == (val,) and any(T.contains(g, lambda x: x == val) for g, _ in p.guards()):
             exact = True
+            exact_paths.append(p)
+    # every text with an integer the fast decoder cannot hold (below -2**63, from 2**64) takes one of those paths, wherever
+    # in the text the numeral stands: the routing conditions are interpreted on witness texts
+    missed = []
+    undecidable = None
+    if exact:
+        for w in LONG_INTEGER_TEXTS:
+            routed = False
+            for p in exact_paths:
+                try:
+                    if all(bool(T.ceval(g, {**env0, val: w})) == pol for g, pol in p.guards()):
+                        routed = True
+                        break
+                except T.Undecidable as e:
+                    undecidable = str(e)
+            if not routed:
+                missed.append(w)
+        if undecidable is not None and missed:
+            rep.held(rule, f.qualname, f.loc, f"some text reaches the exact decoder (the routing condition is outside the interpreted fragment: {undecidable})", detail="long-integers-routed", nontrivial=False)
+        else:
+            rep.check(not missed, rule, f.qualname, f.loc, f"each of {len(LONG_INTEGER_TEXTS)} witness texts with an integer beyond 64 bits is routed to the exact decoder", f"{missed[:3]} hold(s) an integer the fast decoder reads as a float (below -2**63 or from 2**64 on) and is not routed to the exact decoder: the routing test looks at the start of the text only, or asks for more digits than -9223372036854775809 has", detail="long-integers-routed")
     rep.check(exact, rule, f.qualname, f.loc, "texts with long numerals are read by the standard (exact) JSON decoder", "every text is read by compat.json, which is orjson when installed: an integer beyond 64 bits comes back as a float -- unmarshal(list[int], '[1180591620717411303425]') silently returns [1180591620717411303424], an Enum member with the value 2**70 + 1 is not found from its text, a UUID is not read back from str(u.int)", detail="long-integers-exact")
 
 
@@ -494,6 +539,16 @@ def r14_4(prog, rep):
     ev0 = ("param", entry.params[0])
     eps = P.paths_of(prog, entry)
     untouched = any(p.exit[0] == "return" and p.exit[1] == ev0 and any((not pol) and (T.is_call_to(a, f"{C.INSP}.istexttype") or T.is_call_to(a, "builtins.isinstance")) for a, pol in T.derive_atoms(p.guards())) for p in eps)
+    # ... and only that: text that no parser reads comes back as the decoded (exact) text, never as the carrier it came in
+    def _is_text_exit(p):
+        atoms = T.derive_atoms(p.guards())
+        nontext = any((not pol) and (T.is_call_to(a, f"{C.INSP}.istexttype") or T.is_call_to(a, "builtins.isinstance")) for a, pol in atoms)
+        exact_str = any(pol and a[0] == "cmp" and a[1] in ("is", "==") and T.refname(a[3]) == "builtins.str" and T.contains(a[2], lambda x: x == ev0) for a, pol in atoms)
+        return not nontext and not exact_str
+
+    carrier_back = [p for p in eps if p.exit[0] == "return" and p.exit[1] == ev0 and _is_text_exit(p)]
+    if f is not entry:
+        rep.check(not carrier_back, "R14.4", entry.qualname, entry.loc, "text is never handed back as the carrier it came in", "an exit of strload() that has established that the input is text returns the input object itself, not the decoded text: bytes / bytearray / memoryview with text no parser reads (a long run of operators) come back as the carrier -- load(b'...') is bytes where load('...') is str", detail="entry-returns-decoded")
     rep.check(untouched, "R14.4", entry.qualname, entry.loc, "what is no text is returned untouched by the entry itself", "strload() hands whatever it is given to the memoised parser: strload([1, 2]) raises TypeError (unhashable), strload(True) is answered 1.0 after strload(1.0) -- load() returns the same inputs untouched", detail="entry-nontext")
     # every argument that reaches the parser is the result of str.__str__ / str(), or its class has been compared with str -- and found equal
     exact = True
